@@ -421,6 +421,123 @@ fn case_late_bytes(r: &mut Report, cx: &Ctx, case: u64) {
     }
 }
 
+/// The timeout is a budget for the whole exchange, and all of it is usable: a valid response whose parts arrive slowly
+/// but completely before the deadline (the last ones inside the final second) is relayed, not answered 502 (seeded C09-L).
+fn case_slow_valid(r: &mut Report, cx: &Ctx, case: u64) {
+    let mut rng = Rng::derive(cx.seed, 0x0926_0000 + case);
+    let peer: SocketAddr = "10.20.30.41:5556".parse().unwrap();
+    let reqm = gen_request(&mut rng, &GenOpts { max_fields: 4, max_body: 20, allow_xff: false });
+    let req = parse_req(&reqm, peer).unwrap();
+    let timeout = 3000u64;
+    let body: Vec<u8> = (0..24 + case as usize % 7).map(|i| b'a' + ((i + case as usize) % 26) as u8).collect();
+    let (h1, h2) = body.split_at(body.len() / 2);
+    let (kind, parts): (&str, Vec<(u64, Vec<u8>)>) = match case % 3 {
+        0 => ("content-length", vec![(100, format!("HTTP/1.1 200 OK\r\nContent-Length: {}\r\nX-Slow: 1\r\n\r\n", body.len()).into_bytes()), (2000, h1.to_vec()), (200, h2.to_vec())]),
+        1 => ("chunked", vec![(100, b"HTTP/1.1 200 OK\r\nTransfer-Encoding: chunked\r\nX-Slow: 1\r\n\r\n".to_vec()), (2000, format!("{:x}\r\n{}\r\n", h1.len(), String::from_utf8_lossy(h1)).into_bytes()), (200, format!("{:x}\r\n{}\r\n0\r\n\r\n", h2.len(), String::from_utf8_lossy(h2)).into_bytes())]),
+        _ => ("close-delimited", vec![(100, b"HTTP/1.1 200 OK\r\nX-Slow: 1\r\n\r\n".to_vec()), (2000, h1.to_vec()), (200, h2.to_vec())]),
+    };
+    cx.srv.push(Play::Parts { parts });
+    r.eval();
+    r.count("exchanges", 1);
+    r.count("slow_valid_cases", 1);
+    r.nontrivial(fnv(b"slowvalid") ^ case);
+    let replay = vec!["c09".to_string(), "--seed".into(), cx.seed.to_string(), "--slow".into(), case.to_string()];
+    let ex = |why: &str| J::obj(vec![("upstream_behaviour", J::s(format!("valid {} response: head after 100 ms, first half of the body 2000 ms later, second half 200 ms after that, then close (complete ~2.3 s into a 3 s budget)", kind))), ("timeout_ms", J::u(timeout)), ("why", J::s(why))]);
+    match call_proxy_t(req, cx.srv.addr, timeout, timeout + 3000) {
+        Outcome::Hung => r.violation("C09/no-return-within-timeout", format!("proxy_request had not returned {} ms after the call (timeout {} ms): slow valid {} response", timeout + 3000, timeout, kind), ex("hung"), replay),
+        Outcome::Panicked(p, _) => r.violation("C09/panic", format!("proxy_request panicked: {}", p.chars().take(80).collect::<String>()), ex(&p), replay),
+        Outcome::Returned(got, dt) => {
+            let ms = dt.as_millis() as u64;
+            if u16::from(got.status_code) == 200 && got.body == body {
+                r.count("slow_valid_cases_relayed", 1);
+                r.max("max_return_ms_slow_valid_cases(timeout 3000)", ms);
+            } else if is_502(&got) && ms + 150 >= timeout {
+                // the answer came when the budget was (nearly) used up: on this machine the upstream's parts were late
+                r.count("slow_valid_cases_discarded_budget_used_up", 1);
+            } else {
+                r.violation("C09/valid-response-within-timeout-not-relayed", format!("a valid {} response that was complete ~2.3 s into a {} ms budget was answered {} after {} ms (body {} bytes instead of {})", kind, timeout, u16::from(got.status_code), ms, got.body.len(), body.len()), ex("not relayed"), replay);
+            }
+        }
+    }
+}
+
+/// Round-robin over a history that mixes proxied requests with requests refused locally (403 for a blacklisted origin):
+/// only proxied requests take a turn, so consecutive proxied requests reach consecutive targets (seeded C09-K).
+fn rotation_with_refusals(r: &mut Report, seed: u64, case: u64) {
+    let mut rng = Rng::derive(seed, 0x0960_0000 + case);
+    let nt = rng.urange(2, 4);
+    let ups: Vec<ScriptedServer> = match (0..nt).map(|_| ScriptedServer::start("127.0.0.1:0")).collect::<Result<Vec<_>, _>>() {
+        Ok(u) => u,
+        Err(e) => {
+            r.harness_error(format!("cannot start upstreams: {}", e));
+            return;
+        }
+    };
+    let mut c = Config::default();
+    c.logging.console = false;
+    c.logging.level = humphrey_server::server::logger::LogLevel::Error;
+    c.blacklist.list = vec!["10.66.66.66".parse().unwrap()];
+    let state = Arc::new(AppState::from(c));
+    let lb = EqMutex::new(LoadBalancer { targets: ups.iter().map(|u| u.addr.to_string()).collect(), mode: LoadBalancerMode::RoundRobin, index: 0, lcg: Lcg::new() });
+    let len = rng.urange(6, 14);
+    // 'p' proxied, 'x' refused; runs of refusals of every length 1..nt+1 occur over the cases
+    let history: Vec<char> = (0..len).map(|i| if i == 0 || rng.chance(3, 5) { 'p' } else { 'x' }).collect();
+    for u in &ups {
+        for _ in 0..len {
+            u.push(Play::Respond { bytes: b"HTTP/1.1 200 OK\r\nContent-Length: 2\r\n\r\nok".to_vec(), seg: vec![], gap_us: 0, linger_ms: 0 });
+        }
+    }
+    r.eval();
+    r.count("rotation_with_refusals_histories", 1);
+    r.nontrivial(fnv(format!("rwr{}-{}-{:?}", case, nt, history).as_bytes()));
+    let replay = vec!["c09".to_string(), "--seed".into(), seed.to_string(), "--refusals".into(), case.to_string()];
+    let mut hits: Vec<usize> = Vec::new();
+    let mut seen = vec![0usize; nt];
+    for (i, k) in history.iter().enumerate() {
+        let m = ReqModel { method: "GET".into(), path: format!("/p/{}", i), query: None, version: "HTTP/1.1".into(), fields: vec![("Host".into(), 1, "hv".into())], body: None, xff: None, cookies: None };
+        let peer: SocketAddr = if *k == 'x' { "10.66.66.66:999".parse().unwrap() } else { "10.1.1.1:999".parse().unwrap() };
+        let req = parse_req(&m, peer).unwrap();
+        let status = catch_unwind(AssertUnwindSafe(|| u16::from(proxy_handler(req, state.clone(), &lb, "/*").status_code))).unwrap_or(0);
+        let want = if *k == 'x' { 403 } else { 200 };
+        if status != want {
+            r.violation("C09/proxy-handler-wrong-response", format!("request #{} of history {:?} answered {} instead of {}", i, history.iter().collect::<String>(), status, want), J::Null, replay.clone());
+            return;
+        }
+        if *k == 'p' {
+            // which upstream got it?
+            let t = Instant::now();
+            let mut who = None;
+            while who.is_none() && t.elapsed() < Duration::from_millis(1000) {
+                for (j, u) in ups.iter().enumerate() {
+                    let n = u.log_len();
+                    if n > seen[j] {
+                        seen[j] = n;
+                        who = Some(j);
+                    }
+                }
+                if who.is_none() {
+                    std::thread::sleep(Duration::from_millis(1));
+                }
+            }
+            match who {
+                Some(j) => hits.push(j),
+                None => {
+                    r.violation("C09/proxy-handler-no-upstream-request", "a proxied request reached no upstream", J::Null, replay.clone());
+                    return;
+                }
+            }
+        }
+    }
+    let in_rotation = hits.windows(2).all(|w| w[1] == (w[0] + 1) % nt);
+    let ex = J::obj(vec![("targets", J::u(nt as u64)), ("history (p = proxied, x = refused with 403)", J::s(history.iter().collect::<String>())), ("targets_hit_by_the_proxied_requests", J::s(format!("{:?}", hits)))]);
+    if !in_rotation {
+        r.violation("C09/round-robin-not-in-rotation:refused-requests-take-a-turn", format!("over the history {:?} (x = refused locally with 403) the proxied requests reached targets {:?} of {}: not a strict rotation", history.iter().collect::<String>(), hits, nt), ex, replay);
+    } else {
+        r.count("rotation_with_refusals_exact", 1);
+        r.count("refusals_interleaved", history.iter().filter(|k| **k == 'x').count() as u64);
+    }
+}
+
 /// Round-robin under concurrent *requests*: T overlapping proxy_handler calls against slow upstreams.
 fn concurrent_rotation(r: &mut Report, seed: u64, case: u64) {
     let mut rng = Rng::derive(seed, 0x0950_0000 + case);
@@ -717,7 +834,7 @@ pub fn main(args: &Args) {
     let thorough = args.thorough();
     let _ = observe;
     let (n_valid, n_malformed, n_stall, n_handler, n_lb): (u64, u64, u64, u64, u64) = if thorough { (1400, 2000, 160, 800, 2000) } else { (110, 200, 40, 100, 200) };
-    let single = ["case", "malformed", "stall", "handler", "lb", "late", "rotation"].iter().find_map(|k| args.get(k).map(|v| (k.to_string(), v.parse::<u64>().unwrap())));
+    let single = ["case", "malformed", "stall", "handler", "lb", "late", "rotation", "slow", "refusals"].iter().find_map(|k| args.get(k).map(|v| (k.to_string(), v.parse::<u64>().unwrap())));
     let reports = par(if single.is_some() { 1 } else { ncpu() }, move |shard, nsh| {
         let mut r = Report::new();
         let srv = match ScriptedServer::start("127.0.0.1:0") {
@@ -735,6 +852,8 @@ pub fn main(args: &Args) {
                 "stall" => case_stall(&mut r, &cx, *v),
                 "handler" => handler_level(&mut r, &cx, *v),
                 "late" => case_late_bytes(&mut r, &cx, *v),
+                "slow" => case_slow_valid(&mut r, &cx, *v),
+                "refusals" => rotation_with_refusals(&mut r, seed, *v),
                 "rotation" => concurrent_rotation(&mut r, seed, *v),
                 _ => load_balancer(&mut r, seed, *v),
             }
@@ -748,6 +867,12 @@ pub fn main(args: &Args) {
         }
         for c in (0..n_stall / 2).filter(|c| mine(*c)) {
             case_late_bytes(&mut r, &cx, c);
+        }
+        for c in (0..n_stall / 2).filter(|c| mine(*c)) {
+            case_slow_valid(&mut r, &cx, c);
+        }
+        for c in (0..n_stall).filter(|c| mine(*c)) {
+            rotation_with_refusals(&mut r, seed, c);
         }
         for c in (0..n_stall).filter(|c| mine(*c)) {
             concurrent_rotation(&mut r, seed, c);
@@ -774,5 +899,5 @@ pub fn main(args: &Args) {
         r
     });
     let total = Report::merge_all(reports);
-    total.write(out, "proxy_request (timeout 300 ms) against a scripted loopback upstream that records the request and then plays: valid responses over every modelled status code with Content-Length / chunked (random chunkings) / close-delimited bodies; every third one additionally cut at every byte offset (<= 260 B, sampled above) followed by FIN; 10 kinds of non-HTTP / header-malformed answers; connection refused, accept-then-silence, accept-then-close, 50 ms-per-byte trickle, head-then-silence, accept-and-never-read with a 12 MiB request, late partial response then stall (timeout 1000 ms, bound +500 ms); client requests as in C02 (<= 12 fields); proxy_handler with route-prefix stripping and blacklist; LoadBalancer::select_target from 1..8 threads over 1..4 targets, and overlapping proxy_handler calls against slow upstreams (per-target request counts must equal the rotation). distinct = distinct upstream byte strings / histories; non-trivial = upstream messages that are complete valid responses, plus every malformed/stall/handler/balancer case", None, &["wall time is the property here: a call must return within timeout + 3 s (10x the timeout as slack)", "bare-LF line endings and an unknown HTTP version may be relayed or answered 502 (both accepted)", "status codes outside the 39 the library models are not generated"]);
+    total.write(out, "proxy_request (timeout 300 ms) against a scripted loopback upstream that records the request and then plays: valid responses over every modelled status code with Content-Length / chunked (random chunkings) / close-delimited bodies; every third one additionally cut at every byte offset (<= 260 B, sampled above) followed by FIN; 10 kinds of non-HTTP / header-malformed answers; connection refused, accept-then-silence, accept-then-close, 50 ms-per-byte trickle, head-then-silence, accept-and-never-read with a 12 MiB request, late partial response then stall (timeout 1000 ms, bound +500 ms), slow but complete valid responses in three parts ending ~2.3 s into a 3 s budget (Content-Length / chunked / close-delimited: relayed); client requests as in C02 (<= 12 fields); proxy_handler with route-prefix stripping and blacklist; LoadBalancer::select_target from 1..8 threads over 1..4 targets, and overlapping proxy_handler calls against slow upstreams (per-target request counts must equal the rotation), and sequential histories of proxied requests interleaved with requests refused locally (403), where consecutive proxied requests must reach consecutive targets. distinct = distinct upstream byte strings / histories; non-trivial = upstream messages that are complete valid responses, plus every malformed/stall/handler/balancer case", None, &["wall time is the property here: a call must return within timeout + 3 s (10x the timeout as slack)", "bare-LF line endings and an unknown HTTP version may be relayed or answered 502 (both accepted)", "status codes outside the 39 the library models are not generated"]);
 }
